@@ -58,13 +58,16 @@ class ApplyRules(HarnessBase):
     validate_max = 30
     max_paths = 3000
 
-    def __init__(self, kinds, topo='T3', tag=''):
+    def __init__(self, kinds, topo='T3', tag='', again=False):
         self.kinds = tuple(kinds)
         self.topo = topo
-        self.name = 'apply_rules:%s:%s%s' % (topo, '+'.join(kinds) or 'none', tag)
+        # again: the same PWMControl object is applied a second time in the same state after something else (the user,
+        # reset(), another controller) changed the motor's duty cycle in between
+        self.again = again
+        self.name = 'apply_rules:%s:%s%s%s' % (topo, '+'.join(kinds) or 'none', tag, ':applied_again' if again else '')
 
     def describe(self):
-        return dict(rules=list(self.kinds), topology=self.topo)
+        return dict(rules=list(self.kinds), topology=self.topo, applied_again_after_foreign_duty_change=self.again)
 
     def finding_key(self, ob, values):
         return 'apply_rules:%s:%s' % ('+'.join(self.kinds) or 'none', ob.family)
@@ -140,12 +143,31 @@ class ApplyRules(HarnessBase):
             rec['raised'] = 'ValueError'
             rec['msg'] = str(e)[:80]
         rec['pwm_after'] = M.motor.pwm
+        if self.again and rec['raised'] is None:
+            first = dict(proposals=rec['proposals'], pwm_after=rec['pwm_after'], pwm_before=rec['pwm_before'], raised=None)
+            rec['first'] = first
+            rec['proposals'] = []
+            pwm1 = env.real('pwm1', lo=-1, hi=1)
+            M.motor.pwm = pwm1
+            rec['pwm_before'] = pwm1
+            try:
+                ctl.apply_rules()
+            except ValueError as e:
+                rec['raised'] = 'ValueError'
+                rec['msg'] = str(e)[:80]
+            rec['pwm_after'] = M.motor.pwm
         return rec
 
     def obligations(self, out):
         if not out.ok:
             return [holds('arb.no_other_exception', False, info=repr(out.exc))]
         rec = out.value
+        obs = self._obs_one(rec)
+        if 'first' in rec:
+            obs += self._obs_one(rec['first'])
+        return obs
+
+    def _obs_one(self, rec):
         props = [p for p in rec['proposals'] if p is not None]
         obs = []
         n = len(props)
